@@ -222,6 +222,66 @@ def replay_histories(rep, hists, customs, dprobes, eprobes):
     return res
 
 
+def apalache_api_inductive(rep):
+    """History-unbounded argument for the configuration protocol: on the sequence-free abstraction
+    spec/apalache/ApiAbs.tla the conjunction (memo coherent with the live table, memoised alphabet computed
+    from the live table, no caller object aliases a library object, presets unchanged, last translation read
+    the live values) is shown INDUCTIVE with Apalache - it holds after any number of API calls - and three
+    negative configurations obtained by text substitution must be refuted."""
+    import shutil
+    import subprocess
+    from common import SPEC_DIR
+    if shutil.which("apalache-mc") is None:
+        rep.notes["apalache"] = "apalache-mc not found: inductive argument skipped"
+        return
+    work = scratch("apa_api_")
+    src = open(os.path.join(SPEC_DIR, "apalache", "ApiAbs.tla")).read()
+    variants = {
+        "ApiAbs": src,
+        "ApiAbsNoClear": src.replace("Invalidate == capc' = [k \\in Keys |-> NotMemo] /\\ alphaValid' = FALSE /\\ UNCHANGED alphaTab",
+                                     "Invalidate == UNCHANGED <<capc, alphaValid, alphaTab>>"),
+        "ApiAbsAliasPreset": src.replace("  /\\ alias' = [alias EXCEPT ![o] = Own]\n  /\\ UNCHANGED <<cur, capc, alphaValid, alphaTab, pre, pre0>> /\\ NoRead\n\n(* get_semantic_robust",
+                                         "  /\\ alias' = [alias EXCEPT ![o] = 10 + p]\n  /\\ UNCHANGED <<cur, capc, alphaValid, alphaTab, pre, pre0>> /\\ NoRead\n\n(* get_semantic_robust"),
+        "ApiAbsAliasAlphabet": src.replace("  /\\ alias' = [alias EXCEPT ![o] = Own]\n  /\\ UNCHANGED <<cur, capc, pre, pre0>> /\\ NoRead",
+                                           "  /\\ alias' = [alias EXCEPT ![o] = 2]\n  /\\ UNCHANGED <<cur, capc, pre, pre0>> /\\ NoRead"),
+    }
+    for name, text in variants.items():
+        if name != "ApiAbs" and text == src:
+            raise MachineryError("negative configuration %s: substitution did not apply" % name)
+        with open(os.path.join(work, name + ".tla"), "w") as f:
+            f.write(text.replace("MODULE ApiAbs ", "MODULE %s " % name, 1))
+    runs = [("base case Init => IndInv", "ApiAbs", ["--init=Init", "--inv=IndInvR", "--length=0"], True),
+            ("inductive step IndInv /\\ Next => IndInv'", "ApiAbs", ["--init=IndInitR", "--inv=IndInvR", "--length=1"], True),
+            ("negative: set without invalidation is refuted", "ApiAbsNoClear", ["--init=IndInitR", "--inv=IndInvR", "--length=1"], False),
+            ("negative: preset getter returns the library's object is refuted", "ApiAbsAliasPreset", ["--init=IndInitR", "--inv=IndInvR", "--length=1"], False),
+            ("the code's alphabet getter (returns the memoised set itself, known finding KF-C12-alphabet-alias) is refuted",
+             "ApiAbsAliasAlphabet", ["--init=IndInitR", "--inv=IndInvR", "--length=1"], False)]
+
+    def one(run):
+        what, mod, args, want_ok = run
+        try:
+            p_ = subprocess.run(["apalache-mc", "check"] + args + ["--out-dir=" + os.path.join(work, "out_" + mod + args[2][-1]), mod + ".tla"],
+                                cwd=work, stdout=subprocess.PIPE, stderr=subprocess.STDOUT, timeout=900, text=True)
+            return p_.stdout
+        except subprocess.TimeoutExpired:
+            return "TIMEOUT"
+    from common import run_parallel
+    outs = run_parallel([(lambda r=r: one(r)) for r in runs], max_procs=5)
+    res = []
+    for (what, mod, args, want_ok), out in zip(runs, outs):
+        ok = "The outcome is: NoError" in out
+        err = "The outcome is: Error" in out
+        if not ok and not err:
+            rep.notes["apalache"] = "apalache did not run (%s): %s" % (what, out[-300:])
+            return
+        res.append({"obligation": what, "discharged": ok if want_ok else err})
+        if want_ok and err:
+            rep.violation("specification-level: Apalache refutes '%s' for ApiAbs" % what, {"log": out[-1500:]})
+        if not want_ok and ok:
+            raise MachineryError("negative configuration of the inductive argument was not refuted: " + what)
+    rep.notes["apalache_inductive_invariant"] = res
+
+
 def api_check(pid, tier, invariants, ops_note):
     rep = Report(pid, tier)
     quick = tier == "quick"
@@ -248,6 +308,7 @@ def api_check(pid, tier, invariants, ops_note):
         if inv not in rn.violated and not any(inv in e for e in rn.errors):
             raise MachineryError("negative control %s did not violate %s: the model cannot see this bug class" % (nm, inv))
     rep.notes["negative_controls"] = ["alias->NoAliasing", "noclear->CachesCoherent", "nocopy->NoAliasing"]
+    apalache_api_inductive(rep)
     # GEN -> REPLAY of full histories
     dg = d if quick else 4
     r, hists = run_api_tlc("gen", dg, customs, dpro, epro, emit=True, invariants=[], view=False)
